@@ -32,3 +32,23 @@ package backend
 // ParseCopySource is a deterministic function of the header value.
 //@ func ParseCopySource
 //@   pure
+
+// ---- C08: copy-source ranges for UploadPartCopy -------------------------------------------------
+// Same reading of "bytes=a-b" / "bytes=a-" as for GET ranges; a range is served only if it lies inside
+// the source object, and then start and length are exactly the requested interval.
+//@ func ParseCopySourceRange
+//@   requires {C08} [size-is-a-size] size >= 0
+//@   let spec = strings.Split(acceptRange, "=")[1]
+//@   let first = strconv.ParseInt(strings.Split(spec, "-")[0], 10, 64).0
+//@   let lastTxt = strings.Split(spec, "-")[1]
+//@   let last = strconv.ParseInt(lastTxt, 10, 64).0
+//@   let wellFormedStart = acceptRange != "" && len(strings.Split(acceptRange, "=")) == 2 && strings.Split(acceptRange, "=")[0] == "bytes" \
+//@        && len(strings.Split(spec, "-")) == 2 && strconv.ParseInt(strings.Split(spec, "-")[0], 10, 64).1 == nil
+//@   ensures {C08} [inside-the-source] err == nil ==> 0 <= ret0 && 0 <= ret1 && ret0 + ret1 <= size
+//@   ensures {C08} [no-header-whole-object] acceptRange == "" ==> err == nil && ret0 == 0 && ret1 == size
+//@   ensures {C08} [interval-open] err == nil && acceptRange != "" && lastTxt == "" ==> ret0 == first && ret1 == size - first
+//@   ensures {C08} [interval-closed] err == nil && acceptRange != "" && lastTxt != "" ==> ret0 == first && ret1 == last - first + 1
+//@   ensures {C08} [closed-range-is-served] wellFormedStart && first < size && lastTxt != "" && strconv.ParseInt(lastTxt, 10, 64).1 == nil && first <= last && last < size ==> err == nil
+//@   ensures {C08} [open-range-is-served] wellFormedStart && first < size && lastTxt == "" ==> err == nil
+//@   ensures {C08} [malformed-is-an-error] acceptRange != "" && !wellFormedStart ==> err != nil
+//@   ensures {C08} [reversed-is-an-error] wellFormedStart && lastTxt != "" && strconv.ParseInt(lastTxt, 10, 64).1 == nil && last < first ==> err != nil
